@@ -110,12 +110,24 @@ fn registry_echo(cx: &mut Cx, lang: &'static str, rec: &Rec, q: &str, bare: &[us
     let id = (cx.idx as usize + 5_000_000) * 2 + 1;
     let other = LANGS[((cx.idx + 3) % NL) as usize];
     cx.ctx(format!("registry echo lang={} (id used with lang {} before) title={:?} q={:?}", lang, other, rec.1, q));
-    create_store(id, take_lang(other));
-    add_record(id, 1, "metal mailbox", 1);
-    run_search(id, q);
-    destroy_store(id);
-    create_store(id, take_lang(lang));
-    add_record(id, rec.0, &rec.1, rec.2);
+    if cx.rng.chance(1, 2) {
+        create_store(id, take_lang(other));
+        add_record(id, 1, "metal mailbox", 1);
+        run_search(id, q);
+        destroy_store(id);
+        create_store(id, take_lang(lang));
+        add_record(id, rec.0, &rec.1, rec.2);
+    } else {
+        // or: the same text is searched while the store is still empty, and the record then arrives prepared by the
+        // caller through the registry's accessor
+        create_store(id, take_lang(lang));
+        run_search(id, q);
+        let (rid, title, rating) = (rec.0, rec.1.clone(), rec.2);
+        using_store(id, |s| {
+            let r = Record::new(rid, &title, rating, &s.lang);
+            s.add(r);
+        });
+    }
     run_search(id, q);
     let ids: Vec<usize> = using_results(id, |b| b.iter().map(|r| r.id).collect());
     destroy_store(id);
@@ -758,10 +770,22 @@ impl Prop for Finds {
                 // dominant word's one- and two-letter starts with it ("wi-fi" / "wifi" next to thousands of "with ...")
                 let lang = LANGS[(idx % NL) as usize];
                 let alpha = gen::lower_alphabet(lang);
-                let n = *cx.rng.pick(&[4200usize, 4500, 5000, 8300, 9000]);
+                // (one big case in sixteen: 66 000 - 70 000 records, so that more than 2^16 candidates compete under limit = N)
+                let n = if idx % 16 == 3 { *cx.rng.pick(&[66_000usize, 70_000]) } else { *cx.rng.pick(&[4200usize, 4500, 5000, 8300, 9000]) };
+                if n > 60_000 {
+                    cx.count("catalogues of more than 65 536 records under limit = N");
+                }
                 let dom = gen::rand_word(&mut cx.rng, &alpha, 4, 5);
                 let p2: String = dom.chars().take(2).collect();
-                let mut recs: Vec<Rec> = (0..n).map(|i| (10_000 + i, format!("{} {}", gen::rand_word(&mut cx.rng, &alpha, 3, 8), dom), i % 50)).collect();
+                let pair = (gen::rand_word(&mut cx.rng, &alpha, 3, 4), gen::rand_word(&mut cx.rng, &alpha, 3, 4));
+                let mut recs: Vec<Rec> = if n > 60_000 {
+                    // every record spells the same two words apart; the targets spell them run together (and the other way
+                    // round): they share fewer grams with their own split / joined spelling than the tens of thousands of
+                    // literal matches do
+                    (0..n).map(|i| (10_000 + i, format!("{} {}", pair.0, pair.1), i % 50)).collect()
+                } else {
+                    (0..n).map(|i| (10_000 + i, format!("{} {}", gen::rand_word(&mut cx.rng, &alpha, 3, 8), dom), i % 50)).collect()
+                };
                 let mut targets: Vec<Rec> = vec![];
                 for t in 0..5 {
                     let s2 = gen::rand_word(&mut cx.rng, &alpha, 2, 2);
@@ -774,6 +798,11 @@ impl Prop for Finds {
                         _ => gen::rand_title(&mut cx.rng, lang, 3),
                     };
                     targets.push((t + 1, title, 60 + t));
+                }
+                if n > 60_000 {
+                    targets.truncate(1);
+                    targets.push((90, format!("{}{}", pair.0, pair.1), 70));
+                    targets.push((91, format!("{}{} {}", pair.0, pair.1, gen::rand_word(&mut cx.rng, &alpha, 3, 5)), 71));
                 }
                 let at = cx.rng.below(recs.len());
                 for (k, t) in targets.iter().enumerate() {
@@ -826,7 +855,7 @@ impl Prop for Finds {
                         let _ = st.search(&t.1);
                         st.store.limit = recs.len();
                     }
-                    self.check_record(cx, &mut st, &json!(format!("{}{} records '<random word> {}' plus {} ids titled {:?} plus {:?}, limit = N", how, n, dom, dups, dup_title, &targets[..5])), t, &mut done);
+                    self.check_record(cx, &mut st, &json!(format!("{}{} records '<random word> {}' plus {} ids titled {:?} plus {:?}, limit = N", how, n, dom, dups, dup_title, &targets[..targets.len().min(5)])), t, &mut done);
                 }
                 cx.count("catalogues of 4200-9000 records dominated by one word");
             }
